@@ -185,6 +185,9 @@ func bfLine(c *BFCase) string {
 }
 
 func runBF(ctx *hx.Ctx, cases []*BFCase) {
+	if len(cases) == 0 {
+		return
+	}
 	lines := make([]string, len(cases))
 	for i, c := range cases {
 		lines[i] = bfLine(c)
@@ -268,7 +271,7 @@ func main() {
 		}
 	}
 	runBF(ctx, bfs)
-	n := ctx.Scale(1500, 60000)
+	n := ctx.Scale(1500, 25000)
 	batch := 100
 	for done := 0; done < n; done += batch {
 		var cases []*txsim.Case
@@ -279,10 +282,10 @@ func main() {
 	}
 	rc := r.Fork(77)
 	var chains []*txsim.ChainCase
-	for i := 0; i < ctx.Scale(150, 10000); i++ {
+	for i := 0; i < ctx.Scale(150, 3500); i++ {
 		chains = append(chains, txsim.GenChain(rc))
 	}
-	for i := 0; i < ctx.Scale(60, 4000); i++ {
+	for i := 0; i < ctx.Scale(60, 1500); i++ {
 		chains = append(chains, txsim.GenChainPoS(rc))
 	}
 	txsim.RunChains(ctx, "C08", chains)
